@@ -32,9 +32,11 @@ typedef struct {
     uint16_t len[MAX_DGRAMS];
     uint8_t  data[MAX_DGRAMS][DGRAM_MAX];
     char     tmpl[64];                   /* template / mutation name (for keys)   */
+    int      repeat;                     /* soak: the whole script is fed 1 + repeat times */
+    uint8_t  expect_p1[MAX_DGRAMS];      /* 1 + number of output units (frames) this datagram must produce; 0: not judged */
 } seq_t;
 
-enum { EX_OK = 0, EX_HANG = 77, EX_SENTINEL = 78, EX_LOOP = 79, EX_HARNESS = 80 };
+enum { EX_OK = 0, EX_HANG = 77, EX_SENTINEL = 78, EX_LOOP = 79, EX_HARNESS = 80, EX_REPLAYED = 81, EX_STACK = 82, EX_LOST = 83 };
 
 /* ---- state shared with the wrapped recv()/write() */
 static const seq_t* g_seq;
@@ -44,6 +46,8 @@ static volatile int g_cur_dgram = -1;
 static uint8_t g_sentinel[DGRAM_MAX]; static int g_sentinel_len;
 static int g_in_sentinel;
 static long g_writes_this_dgram;
+static int g_rounds_left = -1;           /* soak rounds still to feed                */
+static long g_fed;                       /* datagrams fed so far                     */
 
 static void budget_start(void)
 {
@@ -64,7 +68,10 @@ static void on_vtalrm(int sig)
 /* feed the next scripted datagram into the socket pair */
 static int feed_next(void)
 {
+    if (g_rounds_left < 0) g_rounds_left = g_seq->repeat;
+    if (g_next >= g_seq->n && g_rounds_left > 0 && g_seq->n > 0) { g_rounds_left--; g_next = 0; }
     if (g_next < g_seq->n) {
+        g_fed++;
         g_cur_dgram = g_next;
         if (send(g_feed_fd, g_seq->data[g_next], g_seq->len[g_next], 0) < 0) _exit(EX_HARNESS);
         g_next++;
@@ -141,9 +148,9 @@ static int lst_driver_main(void)
                 close(ep[0]);
                 dup2(ep[1], 2); close(ep[1]);
                 int dn = open("/dev/null", O_WRONLY); if (dn >= 0) { dup2(dn, 1); close(dn); }
-                struct rlimit rl = { 20, 20 }; setrlimit(RLIMIT_CPU, &rl);
+                struct rlimit rl = { 20, 20 }; if (seq.repeat) rl.rlim_cur = rl.rlim_max = 60; setrlimit(RLIMIT_CPU, &rl);
                 struct sigaction sa; memset(&sa, 0, sizeof sa); sa.sa_handler = on_vtalrm; sigaction(SIGVTALRM, &sa, 0);
-                g_seq = &seq; g_next = 0; g_in_sentinel = 0;
+                g_seq = &seq; g_next = 0; g_in_sentinel = 0; g_rounds_left = -1; g_fed = 0;
                 int rc = lst_child(mode, &seq);
                 _exit(rc);
             }
